@@ -38,9 +38,20 @@ type Layout struct {
 func (l Layout) hashMap(k int) uint64   { return (l.Tag(k)&0xfffff)<<44 | (l.Bucket(k) & 0xffffffff) }
 func (l Layout) hashMapOf(k int) uint64 { return (l.Bucket(k)&0xffffffff)<<7 | (l.Tag(k) & 0x7f) }
 
-func keyName(k int) string { return "k" + strconv.Itoa(k) }
+// emptyKeyZero makes key index 0 the empty string (used by the jobs that run the real hash functions).
+var emptyKeyZero bool
+
+func keyName(k int) string {
+	if k == 0 && emptyKeyZero {
+		return ""
+	}
+	return "k" + strconv.Itoa(k)
+}
 
 func keyIndex(s string) int {
+	if s == "" && emptyKeyZero {
+		return 0
+	}
 	if len(s) < 2 || s[0] != 'k' {
 		panic("unexpected key " + strconv.Quote(s))
 	}
